@@ -30,6 +30,9 @@ type Prop struct {
 
 var props = map[string]*Prop{}
 
+// selftestMain is set by selftest.go (build tag selftest).
+var selftestMain func() int
+
 func allScenarios() []Scenario {
 	var sc []Scenario
 	sc = append(sc, c12All("thorough")...)
@@ -66,6 +69,13 @@ func main() {
 		}
 		sort.Strings(ids)
 		fmt.Println(strings.Join(ids, " "))
+	case "selftest":
+		engine.IsolateStdio()
+		if selftestMain == nil {
+			fmt.Fprintln(engine.ProtoOut(), "this binary was built without the selftest tag (see tools/selftest.sh)")
+			os.Exit(2)
+		}
+		os.Exit(selftestMain())
 	case "explore":
 		// debugging aid: vcheck explore <substr> <mode> [maxexecs] — explores matching C12-style scenarios in-process
 		engine.IsolateStdio()
